@@ -90,13 +90,7 @@ pub(crate) fn decode_internal<R: Read, S: Borrow<Schema>>(
                     1u8 => Ok(Value::Boolean(true)),
                     _ => Err(Details::BoolValue(buf[0]).into()),
                 },
-                Err(io_err) => {
-                    if let ErrorKind::UnexpectedEof = io_err.kind() {
-                        Ok(Value::Null)
-                    } else {
-                        Err(Details::ReadBoolean(io_err).into())
-                    }
-                }
+                Err(io_err) => Err(Details::ReadBoolean(io_err).into()),
             }
         }
         Schema::Decimal(DecimalSchema { inner, .. }) => match inner {
@@ -216,13 +210,7 @@ pub(crate) fn decode_internal<R: Read, S: Borrow<Schema>>(
                 Ok(_) => Ok(Value::String(
                     String::from_utf8(buf).map_err(Details::ConvertToUtf8)?,
                 )),
-                Err(io_err) => {
-                    if let ErrorKind::UnexpectedEof = io_err.kind() {
-                        Ok(Value::Null)
-                    } else {
-                        Err(Details::ReadString(io_err).into())
-                    }
-                }
+                Err(io_err) => Err(Details::ReadString(io_err).into()),
             }
         }
         Schema::Fixed(FixedSchema { size, .. }) => {
@@ -306,13 +294,6 @@ pub(crate) fn decode_internal<R: Read, S: Borrow<Schema>>(
                     })?;
                 let value = decode_internal(variant, names, enclosing_namespace, reader)?;
                 Ok(Value::Union(index as u32, Box::new(value)))
-            }
-            Err(Details::ReadVariableIntegerBytes(io_err)) => {
-                if let ErrorKind::UnexpectedEof = io_err.kind() {
-                    Ok(Value::Union(0, Box::new(Value::Null)))
-                } else {
-                    Err(Details::ReadVariableIntegerBytes(io_err).into())
-                }
             }
             Err(io_err) => Err(Error::new(io_err)),
         },
